@@ -9,7 +9,7 @@
    sizes with 1 <= headroom <= size (64 KiB / 32 KiB included), all source lengths and all
    short-read behaviours of the source. *)
 From Coq Require Import List Bool NArith ZArith Lia.
-From PV Require Import Common.Cases C17.Model C17.Spec C17.ProofsData C17.ProofsBuf C17.ProofsWrap C17.ProofsIce.
+From PV Require Import Common.Cases C17.Model C17.Spec C17.ProofsData C17.ProofsBuf C17.ProofsWrap C17.ProofsIce C17.ProofsProbe.
 Import ListNotations.
 Local Open Scope N_scope.
 
@@ -161,9 +161,52 @@ Theorem C17_bufferedio_eof_honest : forall n cap w,
 Proof. exact bio_progress. Qed.
 Print Assumptions C17_bufferedio_eof_honest.
 
+(* Metadata probing (get_buffered_io_metadata) on a BufferedIOBaseWrapper, for EVERY tag parser
+   (any sequence of reads and seeks of any origin on the file object):
+   - if the stream cannot be rewound, nothing at all happens (no byte is consumed) and no
+     metadata is returned;
+   - otherwise the stream-fidelity invariant still holds afterwards (nothing lost, position
+     honest), and with a protected headroom - the way the library probes - the position is
+     the one before the probe, or 0 when that one lies beyond the headroom. *)
+Theorem C17_probe_bufferedio : forall script w,
+  winv w -> Forall (applicable KBio) script -> Forall no_protect script ->
+  let '(ran, w') := io_probe KBio script w in
+  winv w' /\ w_len w' = w_len w /\
+  (ran = false -> w' = w) /\
+  (ran = true -> b_prot (w_buf w) = true ->
+     b_pos (w_buf w') = b_pos (w_buf w) \/ b_pos (w_buf w') = 0).
+Proof. exact probe_bufferedio. Qed.
+Print Assumptions C17_probe_bufferedio.
+
+(* Past the headroom of an unprotected buffer the rewind is refused: the probe is a no-op
+   (8 bytes buffer, headroom 4, six bytes read; the parser would read 4 bytes). *)
+Example C17_ex_probe_past_headroom :
+  exists w, init 8 4 false 40 = Some w /\
+  let w6 := run_state KBio [ORead (Some 6) None] w in
+  b_pos (w_buf w6) = 6 /\
+  io_probe KBio [OSeekX 0 2; OSeek 0 true; ORead (Some 4) None] w6 = (false, w6).
+Proof. eexists. split; [reflexivity|]. vm_compute. split; reflexivity. Qed.
+
 (* ================================================================ StreamReaderWrapper *)
 
-(* StreamReaderWrapper: accepted by the reference for every history in which every seek that
+(* StreamReaderWrapper._read_from_source(n) (bdf53a0) absorbs the short reads of the
+   StreamReader: whatever the limits of the individual reader.read() calls are (each delivers at
+   least one byte while the source has data), the loop returns min(n, what the source has left) -
+   which is what the model's [src_amount_g true] uses. *)
+Theorem C17_read_from_source_absorbs_short_reads : forall caps n cap w,
+  (forall c, In (Some c) caps -> 1 <= c) -> cap <> Some 0 ->
+  read_loop caps n (w_len w - w_cur w) 0 = N.min n (w_len w - w_cur w) /\
+  src_amount_g true (Some n) cap w = N.min n (w_len w - w_cur w).
+Proof.
+  intros caps n cap w Hc Hcap. split.
+  - rewrite read_loop_total by (auto; lia). rewrite N.sub_0_r. reflexivity.
+  - unfold src_amount_g. destruct cap as [c|]; [|reflexivity].
+    replace (c =? 0) with false; [reflexivity|]. symmetry. apply N.eqb_neq. congruence.
+Qed.
+Print Assumptions C17_read_from_source_absorbs_short_reads.
+
+(* StreamReaderWrapper over a source that may deliver short reads on every call ([cap] of each
+   ORead): accepted by the reference for every history in which every seek that
    reports success is made while the wrapper is in sync - i.e. not after a read that
    bypassed the drained buffer (finding C17:streamreader:bypass-stale-position).  The
    no-loss state invariant holds at the end. *)
@@ -480,8 +523,8 @@ Example C17_ex_production :
               ORead (Some 50000) None; ORead (Some 70000) None] in
   Forall (applicable KSrw) ops /\ seeks_in_sync KSrw ops w /\
   map snd (trace KSrw ops w) =
-    [RData [(0, 40000)]; RBool true; RNone; RData [(0, 40000); (40000, 1000)];
-     RData [(41000, 50000)]; RData [(91000, 70000)]].
+    [RData [(0, 40000)]; RBool true; RNone; RData [(0, 40000); (40000, 10000)];
+     RData [(50000, 15536); (65536, 34464)]; RData [(100000, 15536); (115536, 50000)]].
 Proof.
   eexists. split; [reflexivity|]. cbv zeta. split; [repeat constructor|]. split.
   - vm_compute. repeat split; intros _; reflexivity.
